@@ -226,6 +226,13 @@ def Node.clearTraffic (nd : Node) (t : Typ) : Node := { nd with tfail := upd nd.
 /-- one tracked proxy address: address, consecutive count, last update time -/
 abbrev FailEntry := Nat × Nat × Nat
 
+/-- the three durations of `sticky_cache.go` the property does not fix: they are read from the real
+code at run time (`params` op); the defaults are the current source values -/
+structure Cfg where
+  quiesce : Nat := quiesce           -- `reloadFailureQuiesce`
+  ttl : Nat := failureTTL            -- `proxyFailureTTL`
+  cleanup : Nat := cleanupInterval   -- `proxyFailureCleanupInterval`
+
 structure World where
   now : Nat
   supCount : Nat               -- `reloadProxyFailureSuppression`
@@ -234,8 +241,9 @@ structure World where
   nextCleanup : Option Nat     -- `nextCleanupAt` (`none` = zero time)
   nodes : Nat → Node
   sets : List ASet
+  cfg : Cfg := {}
 
-def World.init : World := ⟨0, 0, 0, [], none, fun _ => Node.fresh 0, []⟩
+def World.init : World := ⟨0, 0, 0, [], none, fun _ => Node.fresh 0, [], {}⟩
 
 inductive Out
   | trans (n : Nat) (t : Typ) (alive : Bool)        -- `notifyAliveTransition`
@@ -305,8 +313,8 @@ def cleanupDue (w : World) : Bool :=
 /-- `maybeCleanupLocked`. -/
 def cleanupFailures (w : World) : World :=
   if cleanupDue w then
-    { w with failures := w.failures.filter (fun e => !decide (w.now - e.2.2 ≥ failureTTL)),
-             nextCleanup := some (w.now + cleanupInterval) }
+    { w with failures := w.failures.filter (fun e => !decide (w.now - e.2.2 ≥ w.cfg.ttl)),
+             nextCleanup := some (w.now + w.cfg.cleanup) }
   else w
 
 /-- `recordProxyFailure`: `true` when the address reached `maxConsecutiveFailures`. -/
@@ -612,7 +620,7 @@ def step (w : World) : Event → World × List Out
   | .sbegin => ({ w with supCount := w.supCount + 1 }, [])
   | .send =>
     if w.supCount = 0 then (w, [])
-    else if w.supCount = 1 then ({ w with supCount := 0, supUntil := w.now + quiesce }, [])
+    else if w.supCount = 1 then ({ w with supCount := 0, supUntil := w.now + w.cfg.quiesce }, [])
     else ({ w with supCount := w.supCount - 1 }, [])
   | .tick d => ({ w with now := w.now + d }, [])
   | .resetGlobal => ({ w with failures := [], nextCleanup := none }, [])
